@@ -106,6 +106,8 @@ def run_case(c):
             r = ["other", "RecursionError"]
         except Exception as e:
             r = classify(e)
+            if kind == "assign" and r[0] == "err":
+                r = r + [snapshot()]
         outs.append(r)
         if r[0] == "other":
             break                       # the object may be left in an arbitrary state
